@@ -128,3 +128,20 @@ def TQ.run (q : TQ) : List Op → TQ × List Out
     (q'', o :: os)
 
 end Sc3Verif.C09
+
+namespace Sc3Verif.C09
+
+/-- `Process._shutdown`: `while not q.empty(): q.pop()[1]()` where a running exit action may
+    itself add, move (re-add) or remove pending actions.  `beh t` = the queue operations action
+    `t` performs when called.  Returns the order in which actions ran.  `fuel` bounds the loop
+    (an action that keeps re-adding itself would never terminate). -/
+def TQ.drain (beh : Nat → List Op) : Nat → TQ → List Nat
+  | 0, _ => []
+  | fuel + 1, q =>
+    if q.empty then []
+    else
+      match q.pop with
+      | (q', some (_, t)) => t :: TQ.drain beh fuel (q'.run (beh t)).1
+      | (_, none) => []          -- pop raised KeyError: the loop dies
+
+end Sc3Verif.C09
